@@ -24,7 +24,9 @@ TClosed  == Ev.ev = "closed" /\ open' = open \ {Ev.id} /\ UNCHANGED <<fails, ban
 TBan     == Ev.ev = "ban" /\ F(Ev.addr) >= BanAt /\ bannedA' = bannedA \cup {Ev.addr} /\ UNCHANGED <<open, fails, target>>
 \* an address drought (GetNewAddress fails) / the end of an outage: nothing changes in the book-keeping; what is checked is
 \* that the manager is back at its target at the next quiescent point although replacements went through the retry timer
-TNoAddr  == Ev.ev \in {"noaddr", "recovered"} /\ UNCHANGED <<open, fails, bannedA, target>>
+\* "disconnect-again": a second Disconnect for a connection that was reported closed already changes nothing (ConnMgr.tla has
+\* no action for it); the manager must still never hold more than its target
+TNoAddr  == Ev.ev \in {"noaddr", "recovered", "disconnect-again"} /\ UNCHANGED <<open, fails, bannedA, target>>
 TQuiesce == Ev.ev = "quiesce" /\ Cardinality(open) = target /\ Ev.open = target /\ UNCHANGED <<open, fails, bannedA, target>>
 
 TraceNext == l <= Len(TraceLog) /\ l' = l + 1 /\ (TStart \/ TDialOK \/ TDialBad \/ TConn \/ TDisc \/ TClosed \/ TBan \/ TNoAddr \/ TQuiesce)
